@@ -156,6 +156,12 @@ class Types:
                     if not [b for b in bts if b and b[0] in ("inst", "cls")]:
                         ext_recv = [b for b in bts if b and b[0] in ("mod", "ext")]
                         cands = R.methods_named(fn.attr)
+                        dflt = self.hints.get((fq, "*"))
+                        if dflt and cands:
+                            # function-level hint: receivers of unknown type in this function are instances of `dflt`
+                            fam = set(R.mro(dflt)) | set(R.subclasses(dflt)) | {dflt}
+                            narrowed = [c for c in cands if R.funcs[c].class_q in fam] if all(c in R.funcs for c in cands) else cands
+                            cands = narrowed or cands
                         if cands and not ext_recv:
                             callees = cands
                             how = "CHA-name"
